@@ -130,10 +130,10 @@ class C02(runner.Check):
 			"process-global RNG state, numba thread count, caller thread (leg hist)"],
 	}
 	tiers = {
-		"quick": {"legs": [("rng", 6000), ("sweep", 60), ("hist", 600)],
-			"wall_cap_s": 600, "chunk": 50},
-		"thorough": {"legs": [("rng", 400000), ("sweep", 1400), ("hist", 30000)],
-			"wall_cap_s": 5400, "chunk": 400},
+		"quick": {"legs": [("rng", 20000), ("sweep", 60), ("hist", 3000)],
+			"wall_cap_s": 600, "chunk": 100},
+		"thorough": {"legs": [("rng", 2000000), ("sweep", 1400), ("hist", 150000)],
+			"wall_cap_s": 5400, "chunk": 1000},
 	}
 
 	def prepare(self, tier, fresh=False):
